@@ -226,4 +226,68 @@ theorem chain_elementwise (as es : List (Bij ℝ Unit ℝ)) (h : as.length = es.
     rw [← h1, ← h2, ← List.zip_swap as es, List.zipWith_map_left, List.zipWith_map_left]
     exact ⟨rfl, rfl⟩
 
+
+theorem zipWith_replicate_right {A B C : Type} (f : A → B → C) (c : B) : ∀ (l : List A) (n : Nat), l.length ≤ n →
+    List.zipWith f l (List.replicate n c) = l.map (fun a => f a c)
+  | [], _, _ => by simp
+  | a :: l, 0, h => by simp at h
+  | a :: l, n + 1, h => by
+    simp only [List.replicate_succ, List.zipWith_cons_cons, List.map_cons, List.cons.injEq, true_and]
+    exact zipWith_replicate_right f c l n (by simpa using h)
+
+theorem gen_lognormal_eq_model (loc scale : NArr ℝ) {s : List Nat} (h : bcast2 loc.shape scale.shape = some s) :
+    (GenFam.LogNormal.init loc scale).map logNormalDist
+      = some (lifted (List.zipWith logNormalComp (broadcastTo loc s).data (broadcastTo scale s).data)) := by
+  have hc : logNormalComp (α := ℝ) = fun l σ => (StandardNormal.logProb, (Chain.mk [(Ctors.affine l σ).toBij, Exp.toBij]).toBij) := rfl
+  simp only [GenFam.LogNormal.init, Fw.broadcastShapes, shapeOf, h, affine_init_eq loc scale h, Option.bind_some, chainInit, BijObj.shape,
+    List.all_cons, List.all_nil, beq_self_eq_true, Bool.and_self, if_true, Option.map_some, Option.some.injEq]
+  simp only [logNormalDist, Transformed.toDistWith, ChainObj.toBij, List.map_cons, List.map_nil, BijObj.toBij, affine_toBij, ExpObj.toBij,
+    StdBase.toDist, lifted, hc]
+  rw [map_snd_zipWith, map_fst_zipWith _ _ _ _ (by simp [broadcastTo_length]), broadcastTo_length,
+    chain_elementwise _ _ (by simp [broadcastTo_length])]
+  congr 3
+  rw [zipWith_replicate_right _ _ _ _ (by simp [broadcastTo_length]), List.map_zipWith]
+
+
+/-! ### `Uniform` -/
+
+theorem zipWith_zipWith_swap {A B C D : Type} (f : A → C → D) (g : B → A → C) : ∀ (as : List A) (bs : List B),
+    List.zipWith f as (List.zipWith g bs as) = List.zipWith (fun a b => f a (g b a)) as bs
+  | [], _ => by simp
+  | _ :: _, [] => by simp
+  | a :: as, b :: bs => by simp [zipWith_zipWith_swap f g as bs]
+
+theorem any_le_false : ∀ (A B : List ℝ), (∀ p ∈ List.zip A B, ¬ p.1 ≤ p.2) →
+    (List.zipWith (fun x y => decide (x ≤ y)) A B).any id = false
+  | [], _, _ => by simp
+  | _ :: _, [], _ => by simp
+  | a :: A, b :: B, h => by
+    have h0 := h (a, b) (by simp)
+    have ih := any_le_false A B (fun p hp => h p (by simp [hp]))
+    simp only [List.zipWith_cons_cons, List.any_cons, id, ih, Bool.or_false, decide_eq_false_iff_not]
+    exact h0
+
+/-- `Uniform(minval, maxval)`: every pair of shapes that broadcast, every entry with `minval < maxval` (otherwise `eqx.error_if` raises:
+`gen_uniform_rejects`) -/
+theorem gen_uniform_eq_model (minval maxval : NArr ℝ) {s : List Nat} (h : bcast2 minval.shape maxval.shape = some s)
+    (hv : ∀ p ∈ List.zip (broadcastTo maxval s).data (broadcastTo minval s).data, ¬ p.1 ≤ p.2) :
+    (GenFam.Uniform.init minval maxval).map locScaleDist
+      = some (lifted (List.zipWith uniformComp (broadcastTo minval s).data (broadcastTo maxval s).data)) := by
+  have h' : bcast2 maxval.shape minval.shape = some s := by rwa [bcast2_comm]
+  have hc : uniformComp (α := ℝ) = fun a b => (StandardUniform.logProb, (Ctors.affine a (b - a)).toBij) := rfl
+  let W : NArr ℝ := ⟨s, List.zipWith (· - ·) (broadcastTo maxval s).data (broadcastTo minval s).data⟩
+  have hW : W.WF := by simp [W, NArr.WF, broadcastTo_length]
+  have hle : Fw.le maxval minval
+      = some ⟨s, List.zipWith (fun x y => decide (x ≤ y)) (broadcastTo maxval s).data (broadcastTo minval s).data⟩ := by
+    simp [Fw.le, zipB, broadcastArrays2, h', broadcastTo]
+  have hsub : Fw.sub maxval minval = some W := by
+    simp [Fw.sub, zipB, broadcastArrays2, h', broadcastTo, W]
+  have haff := affine_init_eq minval W (s := s) (bcast2_absorb h)
+  have hself : broadcastTo W s = W := broadcastTo_self W hW
+  simp only [GenFam.Uniform.init, Fw.broadcastShapes, shapeOf, h, hle, errorIf, any_le_false _ _ hv, Option.bind_some, hsub, haff, hself,
+    Bool.false_eq_true, if_false, Option.map_some, Option.some.injEq]
+  simp only [locScaleDist, Transformed.toDistWith, affine_toBij, StdBase.toDist, lifted, hc, W]
+  rw [map_snd_zipWith, map_fst_zipWith _ _ _ _ (by simp [broadcastTo_length]), broadcastTo_length, zipWith_zipWith_swap]
+  rfl
+
 end FamGenPf
